@@ -49,6 +49,7 @@ type Prog struct {
 	fnByName  map[string]*ssa.Function
 	fileCache map[string][]byte
 	funcDecl  map[*ssa.Function]*ast.FuncDecl
+	sch       *schemaRes // name anchors resolved against the frozen schema (schema.go)
 }
 
 func baseEnv() []string {
@@ -281,15 +282,20 @@ func (p *Prog) InstrPos(in ssa.Instruction) token.Pos {
 // NamedType finds a package-level named type.
 func (p *Prog) NamedType(name string) *types.Named {
 	obj := p.Pkg.Types.Scope().Lookup(name)
-	if obj == nil {
-		return nil
+	if tn, ok := obj.(*types.TypeName); ok {
+		if n, _ := tn.Type().(*types.Named); n != nil {
+			// a new type that took the name of a recorded one is not the recorded one; the exact name wins otherwise
+			return n
+		}
 	}
-	tn, ok := obj.(*types.TypeName)
-	if !ok {
-		return nil
+	// renamed struct type: resolved against the frozen schema
+	if _, frozen := frozenSchema[name]; frozen {
+		return p.schema().typeOf[name]
 	}
-	n, _ := tn.Type().(*types.Named)
-	return n
+	if _, frozen := frozenNamed[name]; frozen {
+		return p.schema().typeOf[name]
+	}
+	return nil
 }
 
 // Field finds field `field` of struct type `typ`; nil if missing.
@@ -307,7 +313,8 @@ func (p *Prog) Field(typ, field string) *types.Var {
 			return st.Field(i)
 		}
 	}
-	return nil
+	// renamed field: resolved against the frozen schema
+	return p.schema().fieldOf[typ+"."+field]
 }
 
 // Global finds a package-level variable.
@@ -317,7 +324,8 @@ func (p *Prog) Global(name string) *ssa.Global {
 			return g
 		}
 	}
-	return nil
+	// renamed variable: resolved against the frozen schema
+	return p.schema().globalOf[name]
 }
 
 // fieldOf returns the struct field addressed/read by a FieldAddr or Field instruction.
@@ -357,6 +365,9 @@ func (p *Prog) ownerName(f *types.Var) string {
 		}
 		for i := 0; i < st.NumFields(); i++ {
 			if st.Field(i) == f {
+				if n, ok := tn.Type().(*types.Named); ok {
+					return p.canonTypeName(n) // reported under the name the rules know (schema.go)
+				}
 				return tn.Name()
 			}
 		}
